@@ -63,6 +63,22 @@ def gen(ctx, plans, hists):
             sc["cw"] = [min(x, 3000) for x in sc["cw"]]
             sc["sw"] = [min(x, 3000) for x in sc["sw"]]
         scen.append({"id": "sess%d" % i, "kind": "session", "spad": rng.choice([0, 1, 300, 1307, 1308]), "noise": rng.random() < 0.5, "script": sc, "seed": i})
+    # a UniformDH shared secret with a leading zero byte (1 key pair in 256; the reference server searches for one)
+    for k4 in range(2 if quick else 6):
+        sc = {"cw": [40, 1448], "sw": [33, 1448], "c2s": {"mode": "whole"}, "s2c": {"mode": "whole"}, "rbuf": [4096], "lockstep": True, "quiesce_each": True}
+        scen.append({"id": "zsecret%d" % k4, "kind": "session", "spad": 10 * k4, "noise": False, "zsecret": True, "script": sc, "seed": 9100 + k4})
+    # the server writes its last bytes and closes at once: the client reads all of them before the end of the stream, also
+    # when the last bytes and the end arrive in ONE Read of the underlying connection and the application reads in small pieces
+    for k5, (together, rbuf) in enumerate([(False, [4096]), (True, [4096]), (False, [16]), (True, [16]), (True, [1448, 1]), (True, [70000])][: (4 if quick else 6)]):
+        sc = {"cw": [40], "sw": [33], "c2s": {"mode": "whole"}, "s2c": {"mode": "whole"}, "rbuf": rbuf, "lockstep": True, "quiesce_each": True,
+              "final": {"d": "s2c", "n": [3000, 20000][k5 % 2], "together": together}}
+        scen.append({"id": "final%d" % k5, "kind": "session", "spad": 50, "noise": False, "seed": 9200 + k5, "script": sc})
+    # reader and writer of the client provably overlap (see harness/stream: during_write)
+    for k3 in range(2 if quick else 8):
+        OV = k3
+        sc = {"cw": [40, 1448, 10, 3000], "sw": [33, 1448, 7, 3000], "c2s": {"mode": "whole", "during_write": OV % 2 == 0}, "s2c": {"mode": "whole", "during_write": OV % 2 == 1},
+              "rbuf": [4096], "lockstep": False, "quiesce_each": False}
+        scen.append({"id": "overlap%d" % k3, "kind": "session", "spad": 100, "noise": False, "script": sc, "seed": 9000 + k3})
     # 4. ticket histories from TicketStore.tla
     hs = hists
     if quick:
